@@ -12,17 +12,18 @@ LEVEL = "fault_enumeration"
 RULE = ("for each response kind (state, capabilities, properties, energy, humidity): a valid frame describing a state different in every "
         "field from the client's current one is corrupted at one byte position after the start byte with a substitute value, either "
         "plain (outer checksum now wrong) or - for body bytes other than the trailing check byte - with the outer checksum recomputed; "
-        "the client has previously learned a capability profile with property-protocol features, energy and humidity reporting and holds valid readings; the frame is the only answer to every command of a refresh() (and for capabilities also to get_capabilities()); in a third of the cases a healthy multi-command refresh is abandoned (cancelled) by its caller after its first answer, just before the corrupted ones; in half of the cases another client object with its own device receives and accepts the genuine frame first (and again every 10 corruptions). Independent validity predicate "
+        "the client has previously learned a capability profile with property-protocol features, energy and humidity reporting and holds valid readings; the frame - once, or 2-5 copies of it in one exchange - is the only answer to every command of a refresh() (and for capabilities also to get_capabilities(), and in one case in six to toggle_display()); in a third of the cases a healthy multi-command refresh is abandoned (cancelled) by its caller after its first answer, just before the corrupted ones; in half of the cases another client object with its own device receives and accepts the genuine frame first (and again every 10 corruptions). Independent validity predicate "
         "V = outer checksum ok and (id in {B0,B1} or CRC-8 ok or additive ok); for not V: to_dict() and the capability attributes must be "
         "unchanged and online/supported must be False. Corruptions with V true (the other check matches by chance, or the property-response "
         "exemption) are skipped and counted. distinct = (kind, position, value, fix-up); all judged cases are non-trivial")
 ASSUMPTIONS = ["validity is as defined in the first sentence of the statement; ~1/255 of body substitutions satisfy the other body check and are skipped",
                "property responses with a recomputed outer checksum are exempt by design and skipped"]
-ANCHORS = ["frame.py:Frame.validate", "command.py:Response.validate", "device.py:AirConditioner._send_command_get_responses",
-           "device.py:AirConditioner.refresh"]
+# reach anchors: only entry points this check calls itself or callbacks the event loop needs (robust against internal refactors);
+# that the mechanism was really exercised is demanded through MIN_NONTRIVIAL / MIN_HIST outcome counts
+ANCHORS = ["command.py:Response.construct", "device.py:AirConditioner.refresh", "device.py:AirConditioner.get_capabilities"]
 MIN_NONTRIVIAL = {"quick": 8000, "thorough": 60000}
 WORKERS = {"quick": 1, "thorough": 16}
-EXHAUSTIVE = {"quick": ["every byte position after the start byte x 51 substitute values x {plain, outer checksum recomputed} for 5 response kinds"],
+EXHAUSTIVE = {"quick": ["every byte position after the start byte x 29 sampled substitute values x {plain, outer checksum recomputed} for 5 response kinds"],
               "thorough": ["every byte position after the start byte x all 255 substitute values x {plain, outer checksum recomputed} for 5 response kinds and both body-check styles"]}
 
 S0 = {"power": False, "mode": 2, "target_temperature": 20.0, "fan": 40, "swing": 0, "eco": False, "turbo": False, "sleep": False,
@@ -69,7 +70,7 @@ def generate(ctx, rng):
             n = len(frame)
             for pos in range(1, n):
                 if quick:
-                    vals = sorted(rng.sample(range(1, 256), 51))
+                    vals = sorted(rng.sample(range(1, 256), 29))
                 else:
                     vals = list(range(1, 256))
                 yield ("c", check, kind, pos), {"kind": kind, "check": check, "pos": pos, "xors": vals, "genuine_seen": pos % 2 == 1, "abandoned_refresh": pos % 3 == 2}
@@ -213,12 +214,16 @@ def run_case(ctx, case):
                 if _is_valid(cf):
                     out.append(("skip", vname, cf, None, None, None))
                     continue
-                feed["frames"] = [cf]
-                ops = ["refresh"] + (["caps"] if kind == "caps" else [])
+                # the exchange may carry the corrupted frame once, or several corrupted frames (copies, or copies of an earlier one)
+                ncopies = [1, 1, 2, 3, 5][i % 5]
+                feed["frames"] = [cf] * ncopies
+                ops = ["refresh"] + (["caps"] if kind == "caps" else []) + (["toggle"] if i % 6 == 1 else [])
                 for op in ops:
                     try:
                         if op == "caps":
                             await ac.get_capabilities()
+                        elif op == "toggle":
+                            await ac.toggle_display()
                         else:
                             await ac.refresh()
                         exc = None
@@ -257,6 +262,6 @@ def run_case(ctx, case):
         if not same:
             ctx.violation("corrupted-frame-used", f"state changed after a corrupted {kind} frame ({vname}, byte {pos})", one,
                           {"frame": cf, "diff": rec[8] if len(rec) > 8 else None})
-        if op == "refresh" and (online or supported):
+        if op in ("refresh", "toggle") and (online or supported):
             ctx.violation("online-after-only-corrupted", f"refresh that saw only a corrupted {kind} frame reports online={online} supported={supported}",
                           one, {"frame": cf})
